@@ -1,4 +1,5 @@
 import StrumProofs.C03
+import StrumProofs.Lemmas.Capture
 /-
 C17 — Display renders fixed names like a `str` and placeholders like `format!`.
 
@@ -188,6 +189,46 @@ theorem empty_brace_rejected (d : EnumDef) (v : Variant) (n : Nat) (hf : v.field
   have : used.any (·.isEmpty) = true := by
     simp only [List.any_eq_true]; exact ⟨[], he, rfl⟩
   simp [ht, hd, hc, hf, this]
+
+/-- **The macro's placeholder scanner agrees with the format-string grammar**: for a name that is a well-formed
+    format literal (tokens `{{`, `}}`, `{body}`, other characters) the scanner returns exactly the placeholders'
+    argument names, in order (`capture_eq_parse`, Lemmas/Capture.lean).  Consequences for the Display arm: -/
+theorem fixed_iff_no_placeholder_tokens (d : EnumDef) (v : Variant) (ts : List FmtTok) (hwf : ∀ t ∈ ts, t.wf)
+    (hn : canonical d v = renderToks ts) : NoPlaceholder (canonical d v) ↔ tokArgs ts = [] := by
+  unfold NoPlaceholder
+  rw [hn, capture_eq_parse ts hwf]
+  simp
+
+/-- a tuple variant whose name is a well-formed literal with at least one (non-empty) placeholder is rendered by
+    `format_args!(name, field0, .., field(n-1))` -/
+theorem tuple_interp_of_wf (d : EnumDef) (v : Variant) (n : Nat) (hf : v.fields = .tuple n)
+    (ht : v.transparent = false) (hd : (v.toStr.isNone && v.isDefault) = false)
+    (ts : List FmtTok) (hwf : ∀ t ∈ ts, t.wf) (hn : canonical d v = renderToks ts)
+    (hne : tokArgs ts ≠ []) (hnoempty : ∀ a ∈ tokArgs ts, a ≠ []) :
+    displayArm d v = .ok (.interp (canonical d v) (positional n)) := by
+  unfold displayArm
+  rw [preferredName_eq_canonical]
+  have hc : captureFormatStrings (canonical d v) = .ok (tokArgs ts) := by rw [hn]; exact capture_eq_parse ts hwf
+  have h1 : (tokArgs ts).any (·.isEmpty) = false := by
+    cases h : (tokArgs ts).any (·.isEmpty)
+    · rfl
+    · simp only [List.any_eq_true] at h
+      obtain ⟨a, ha, hae⟩ := h
+      exact absurd (by simpa using hae) (hnoempty a ha)
+  have h2 : (tokArgs ts).isEmpty = false := by cases h : tokArgs ts <;> simp_all
+  simp [ht, hd, hc, hf, h1, h2]
+
+/-- a named variant: the bound arguments are the declared fields the literal mentions -/
+theorem named_interp_of_wf (d : EnumDef) (v : Variant) (fs : List (Bytes × Option Bytes)) (hf : v.fields = .named fs)
+    (ht : v.transparent = false) (hd : (v.toStr.isNone && v.isDefault) = false)
+    (ts : List FmtTok) (hwf : ∀ t ∈ ts, t.wf) (hn : canonical d v = renderToks ts)
+    (hne : tokArgs ts ≠ []) (hid : (tokArgs ts).all isIdentLike = true) :
+    displayArm d v = .ok (.interp (canonical d v) ((fs.map (·.1)).filter (fun f => (tokArgs ts).contains f))) := by
+  unfold displayArm
+  rw [preferredName_eq_canonical]
+  have hc : captureFormatStrings (canonical d v) = .ok (tokArgs ts) := by rw [hn]; exact capture_eq_parse ts hwf
+  have h2 : (tokArgs ts).isEmpty = false := by cases h : tokArgs ts <;> simp_all
+  simp [ht, hd, hc, hf, hid, h2]
 
 /-! non-vacuity / regression examples -/
 example : pad { width := some 5, align := some .center, fill := [42] } [97, 98] = [42, 97, 98, 42, 42] := by decide
